@@ -20,14 +20,22 @@ func iterN(v string, vals []string, body *sx.Node) *sx.Node {
 	return sx.L(sx.A("I"), sx.A(v), sx.Strs(vals), body)
 }
 
+// inclN: an include role — the site's own defaults / vars, and the root of the included sub-workflow.
+func inclN(d, v, root *sx.Node) *sx.Node {
+	return sx.L(sx.A("N"), d, v, sx.L(), sx.L(), root)
+}
+
 func e() *sx.Node { return sx.L() }
 
-// loadedAddrs: pre-order addresses of the loaded tree (root = (0)).
+// loadedAddrs: pre-order addresses of the ROLES of the loaded tree (root = (0)); an include
+// site is a step of the address, not a role.
 func loadedAddrs(loaded *sx.Node) [][]int {
 	var out [][]int
 	var walk func(t *sx.Node, a []int)
 	walk = func(t *sx.Node, a []int) {
-		out = append(out, append([]int{}, a...))
+		if !isIncl(t) {
+			out = append(out, append([]int{}, a...))
+		}
 		for i := 5; i < t.Len(); i++ {
 			walk(t.At(i), append(a, i-5))
 		}
@@ -80,11 +88,46 @@ func wShapes() []wShape {
 		{"static", roleN("A", rootD, e(), e(),
 			roleN("A", e(), e(), e(), roleN("T", e(), e(), e()), roleN("C", e(), e(), e())),
 			roleN("A", e(), e(), kvNode("k1", "ub"), roleN("T", e(), e(), e())))},
+		// include roles: k0 default at the root, k2 defined at the site AND in the included root (the included
+		// root is the nearer level), k4 only at the site, k1 a user var of the loaded include role
+		{"incl", roleN("A", rootD, e(), e(),
+			inclN(kvNode("k2", "sd", "k4", "sd"), kvNode("k2", "sv", "k4", "sv"),
+				roleN("A", kvNode("k2", "rd"), kvNode("k2", "rv"), kvNode("k1", "ub"),
+					roleN("T", e(), e(), e()), roleN("C", e(), e(), e()))),
+			roleN("T", e(), e(), e()))},
+		// the include role is the template of an iterator: the iteration variable is a var of the SITE,
+		// i.e. the nearest definition for every role of the included sub-workflow
+		{"iterIncl", roleN("A", rootD, kvNode("it", "rootv"), e(),
+			iterN("it", []string{"x0", "x1"}, inclN(e(), kvNode("k2", "sv"),
+				roleN("A", e(), e(), kvNode("k1", "ub"),
+					roleN("A", e(), e(), e(), roleN("T", e(), e(), e())), roleN("C", e(), e(), e())))))},
+		// … and the included root defines the iteration variable itself (defaults lose, vars win)
+		{"iterInclShadow", roleN("A", rootD, e(), e(),
+			iterN("it", []string{"x0", "x1"}, inclN(e(), e(),
+				roleN("A", kvNode("it", "rd"), e(), e(), roleN("T", e(), e(), e())))),
+			iterN("jt", []string{"y0", "y1"}, inclN(e(), e(),
+				roleN("A", e(), kvNode("jt", "rv"), e(), roleN("C", e(), e(), e())))))},
+		// include inside an included sub-workflow, the inner one iterated; an iterator inside an included root
+		{"inclNested", roleN("A", rootD, e(), e(),
+			inclN(e(), kvNode("k2", "s1"),
+				roleN("A", e(), e(), e(),
+					iterN("it", []string{"x0", "x1"}, inclN(kvNode("k2", "s2"), e(),
+						roleN("A", e(), e(), kvNode("k1", "ub"), roleN("T", e(), e(), e())))),
+					iterN("jt", []string{"1", "2"}, roleN("T", e(), e(), e())))))},
 		{"deep", roleN("A", rootD, e(), e(),
 			roleN("A", e(), e(), e(),
 				iterN("it", []string{"x0", "x1"}, roleN("A", e(), e(), e(),
 					iterN("k2", []string{"0", "1"}, roleN("A", e(), e(), e(), roleN("T", e(), e(), e())))))))},
 	}
+}
+
+func wShapeNamed(name string) *sx.Node {
+	for _, sh := range wShapes() {
+		if sh.name == name {
+			return sh.tree
+		}
+	}
+	return wShapes()[2].tree
 }
 
 // fixedWrites: for every shape and EVERY role r of the loaded tree — one write
@@ -124,6 +167,12 @@ func fixedWrites() []fw.Case {
 
 // genTreeW: a random template; returns the node and the number of roles it loads to.
 func genTreeW(r *rng.R, keys []string, depth, maxDepth int, path string, pDef int, iters *int) (*sx.Node, int) {
+	return genTreeWI(r, keys, depth, maxDepth, path, pDef, iters, nil)
+}
+
+// genTreeWI: incls != nil — aggregators below the root are, one time in two, the root of a
+// sub-workflow behind an include role (the site gets maps of its own; *incls counts them).
+func genTreeWI(r *rng.R, keys []string, depth, maxDepth int, path string, pDef int, iters, incls *int) (*sx.Node, int) {
 	kind := "A"
 	if depth > 0 && (depth >= maxDepth-1 || r.P(1, 3)) {
 		kind = rng.Pick(r, []string{"T", "T", "C"})
@@ -137,9 +186,13 @@ func genTreeW(r *rng.R, keys []string, depth, maxDepth int, path string, pDef in
 	if kind == "A" {
 		kids := r.Range(1, 3)
 		for i := 0; i < kids; i++ {
-			c, k := genTreeW(r, keys, depth+1, maxDepth, fmt.Sprintf("%s%d", path, i), pDef, iters)
+			c, k := genTreeWI(r, keys, depth+1, maxDepth, fmt.Sprintf("%s%d", path, i), pDef, iters, incls)
 			n.Add(c)
 			count += k
+		}
+		if incls != nil && depth > 0 && r.P(1, 2) {
+			*incls++
+			n = inclN(randMap(r, keys, "sd"+path, pDef), randMap(r, keys, "sv"+path, pDef), n)
 		}
 	}
 	if depth > 0 && r.P(2, 5) {
@@ -169,16 +222,24 @@ func genRandomWrites(r *rng.R) fw.Case {
 	}
 	pDef := rng.Pick(r, []int{2, 4, 7})
 	var tree *sx.Node
-	iters := 0
+	iters, incls := 0, 0
+	withIncl := r.P(1, 3)
 	for try := 0; ; try++ {
-		iters = 0
-		t, n := genTreeW(r, keys, 0, r.Range(2, 5), "", pDef, &iters)
-		if n >= 2 && n <= 14 {
+		iters, incls = 0, 0
+		ip := &incls
+		if !withIncl {
+			ip = nil
+		}
+		t, n := genTreeWI(r, keys, 0, r.Range(2, 5), "", pDef, &iters, ip)
+		if n >= 2 && n <= 14 && (!withIncl || incls > 0) {
 			tree = t
 			break
 		}
 		if try >= 20 {
-			tree, iters = wShapes()[2].tree, 1
+			tree, iters, incls = wShapes()[2].tree, 1, 0
+			if withIncl {
+				tree, iters, incls = wShapeNamed("iterIncl"), 1, 1
+			}
 			break
 		}
 	}
@@ -215,7 +276,23 @@ func genRandomWrites(r *rng.R) fw.Case {
 	in := sx.L(sx.I(style), env, tree, tmpl, ops)
 	tags := []string{"writes", "wrand", fmt.Sprintf("witers=%d", min(iters, 3)), fmt.Sprintf("wops=%d", ops.Len()),
 		fmt.Sprintf("env=%v", env.Len() == 3), fmt.Sprintf("tmpl=%v", tmpl.Len() == 2)}
+	if withIncl {
+		tags = append(tags, fmt.Sprintf("wincl=%d", min(incls, 3)), fmt.Sprintf("witerincl=%v", hasIterIncl(tree)))
+	}
 	return fw.Case{Input: in.String(), Tags: tags}
+}
+
+// hasIterIncl: some iterator's template is an include role.
+func hasIterIncl(t *sx.Node) bool {
+	if isIter(t) {
+		return isIncl(t.At(3)) || hasIterIncl(t.At(3))
+	}
+	for i := 5; i < t.Len(); i++ {
+		if hasIterIncl(t.At(i)) {
+			return true
+		}
+	}
+	return false
 }
 
 // nontrivialW: some non-global write lands on a role other than the root, so
@@ -288,6 +365,14 @@ func shrinkCandsW(in *sx.Node) []string {
 				v.List = v.List[:len(v.List)-1]
 				emit(st, env, c, tmpl, ops)
 			}
+			if len(p) > 0 && p[len(p)-1] >= 5 {
+				// the whole iterator away (emit rejects it when the parent is left without a child)
+				c := cloneNode(tree)
+				par := at(c, p[:len(p)-1])
+				i := p[len(p)-1]
+				par.List = append(par.List[:i], par.List[i+1:]...)
+				emit(st, env, c, tmpl, ops)
+			}
 			continue
 		}
 		if len(p) > 0 && p[len(p)-1] >= 5 {
@@ -295,6 +380,13 @@ func shrinkCandsW(in *sx.Node) []string {
 			par := at(c, p[:len(p)-1])
 			i := p[len(p)-1]
 			par.List = append(par.List[:i], par.List[i+1:]...)
+			emit(st, env, c, tmpl, ops)
+		}
+		if len(p) > 0 && isIncl(n) {
+			// the included root in place of the include role (ops whose addresses break are rejected by emit)
+			c := cloneNode(tree)
+			par := at(c, p[:len(p)-1])
+			par.List[p[len(p)-1]] = cloneNode(n.At(5))
 			emit(st, env, c, tmpl, ops)
 		}
 		for m := 1; m <= 4; m++ {
